@@ -16,8 +16,9 @@ import (
 // c14Derived: workgroup sizes and module-scope initialisers derived from overrides (the part of C14 that the
 // generated-program campaign does not reach). The programs come from a template whose expected buffer contents are
 // computed directly from the WGSL rules: with n = the value of override n (supplied or default) and k likewise,
-//   every invocation li < n*m of the single workgroup writes o[li] = k*3 + 1 + li (private var g initialised from k),
-//   and cnt counts the invocations.
+//
+//	every invocation li < n*m of the single workgroup writes o[li] = k*3 + 1 + li (private var g initialised from k),
+//	and cnt counts the invocations.
 func c14Derived(c *run.Ctx) {
 	n := c.N(60, 600)
 	c.Each(n, func(i int) (string, run.Outcome) {
